@@ -424,6 +424,13 @@ check:
 	// Patterns are ANDed according to section 9.4.6.  If all the patterns
 	// declared by t were also declared by the type t is based on, then
 	// no patterns are added.
+	// y is a copy of the type it is based on; give it its own slices so that
+	// appending to them cannot write into slices shared with other types
+	// that are based on the same type.
+	y.Pattern = append([]string(nil), y.Pattern...)
+	y.POSIXPattern = append([]string(nil), y.POSIXPattern...)
+	y.Type = append([]*YangType(nil), y.Type...)
+
 	seenPatterns := map[string]bool{}
 	for _, p := range y.Pattern {
 		seenPatterns[p] = true
